@@ -867,12 +867,12 @@ Definition ss_replace (c : ss_conf) (s : ss_state) (now round : Z) (a : ss_alloc
   d <- ss_find_ba removed (al_bas a) ;;
   b <- ss_find_blobber removed (st_blobbers s) ;;
   if bl_killed b || bl_shut b then
-    (* killed branch: the value goes back to the write pool; the challenge pool is not saved.
-       The flag reports that tokens were moved without debiting the pool (defect F-12a). *)
+    (* killed branch: the value goes back to the write pool (pool saved, moved_back updated);
+       the killed blobber keeps its Allocated and its stake pool offer *)
     cp <- al_cp a ;;
-    '(w, _) <- ss_move_from_cp (al_wpool a) cp (ba_cpiv d) ;;
-    Some (s, al_with_pools a w (al_mtc a) (al_mb a) (al_mtv a) (al_cp a) (ss_replace_ba removed nb (al_bas a)),
-          negb (ba_cpiv d =? 0))
+    '(w, cp') <- ss_move_from_cp (al_wpool a) cp (ba_cpiv d) ;;
+    mb <- ss_add_coin (al_mb a) (ba_cpiv d) ;;
+    Some (s, al_with_pools a w (al_mtc a) mb (al_mtv a) (Some cp') (ss_replace_ba removed nb (al_bas a)), false)
   else
     '(a1, rate, gone) <- ss_remove_rates c round a removed ;;
     d1 <- ss_find_ba removed (al_bas a1) ;;
@@ -1002,8 +1002,8 @@ Definition ss_required_lock (c : ss_conf) (a : ss_alloc) (cpbal : Z) (extend : b
   let total := ss_wrap (al_wpool a + cpbal) in
   Some (if total <? cost then cost - total else 0).
 
-(* updateAllocationRequestInternal; the boolean reports whether one of the two accounting
-   defects fired during this execution *)
+(* updateAllocationRequestInternal; the boolean reports whether the accounting defect of
+   adjustChallengePool (unchecked subtraction) fired during this execution *)
 Definition ss_update_f (c : ss_conf) (s : ss_state) (now round sender alloc value size : Z) (extend0 set_tpe : bool)
            (add remove : option Z) (new_owner : option (Z * bool)) : option (ss_state * bool) :=
   let extend := extend0 || (0 <? size) in
@@ -1227,7 +1227,7 @@ Definition ss_apply (c : ss_conf) (s : ss_state) (now round : Z) (o : ss_op) : o
       ss_free_alloc c s now id sender assigner recipient coin nonce sig_ok bl
   end.
 
-(* did one of the accounting defects fire while this transaction executed? *)
+(* did the accounting defect fire while this transaction executed? *)
 Definition ss_fired (c : ss_conf) (s : ss_state) (now round : Z) (o : ss_op) : bool :=
   match o with
   | OpUpdate sender alloc value size ext tpe add rem own =>
